@@ -307,18 +307,18 @@ theorem chainStep_small {c : Cfg} {raw : Bool} {k : Nat} {m : Map} {st : ES} {ac
     all_goals (cases h; exact hs)
 
 open Map in
-theorem chainLoop_small {c : Cfg} {raw : Bool} {k : Nat} {o : Orc} : ∀ (steps : List EStep) (m : Map) (st : ES)
+theorem chainLoop_small {c : Cfg} {raw : Bool} {k : Nat} : ∀ (steps : List EStep) (o : Orc) (m : Map) (st : ES)
     (acc : ChainAcc) (r : Map × ES × ChainAcc), Small m → chainLoop c raw k steps m st acc o = .ok r → Small r.1 := by
   intro steps
   induction steps with
-  | nil => intro m st acc r hs h; unfold chainLoop at h; cases h; exact hs
+  | nil => intro o m st acc r hs h; unfold chainLoop at h; cases h; exact hs
   | cons s rest ih =>
-    intro m st acc r hs h
+    intro o m st acc r hs h
     unfold chainLoop at h
     split at h
     · cases h
     · rename_i m' st' acc' hst
-      exact ih m' st' acc' r (chainStep_small (r := (m', st', acc')) hs hst) h
+      exact ih _ m' st' acc' r (chainStep_small (r := (m', st', acc')) hs hst) h
 
 open Map in
 theorem entryChain_small {c : Cfg} {raw : Bool} {lh : Nat} {m : Map} {k kid : Nat} {steps : List EStep} {o : Orc}
@@ -329,7 +329,7 @@ theorem entryChain_small {c : Cfg} {raw : Bool} {lh : Nat} {m : Map} {k kid : Na
   · cases h
   · rename_i m' st acc hc
     cases h
-    exact chainLoop_small steps m _ _ (m', st, acc) hs hc
+    exact chainLoop_small steps o m _ _ (m', st, acc) hs hc
 
 theorem clone_small {c : Cfg} {m : Map} {o : Orc} {r : Map × Out} (hs : Small m)
     (h : Map.clone c m o = .ok r) : Small r.1 := by
